@@ -113,8 +113,8 @@ def target_spec(name):
         units = [(f"{S}/fault/qsbr_fault.cpp", "qsbr_fault.o", fl)]
         units += [(f"{REPO}/{f}", f.replace(".cpp", ".o"), fl) for f in ["qsbr.cpp", "qsbr_ptr.cpp", "test_heap.cpp"]]
         return "g++", units, ["-pthread"], ["fault"]
-    if name == "olc":
-        fl = BASE + HOOKS + STATS + SAN + ["-O1"]
+    if name in ("olc", "olc_nd"):
+        fl = BASE + HOOKS + STATS + SAN + ["-O1"] + (["-DNDEBUG"] if name == "olc_nd" else [])
         units = [(f"{S}/conc_olc/olc_main.cpp", "olc_main.o", fl)]
         units += [(f"{REPO}/{f}", f.replace(".cpp", ".o"), fl) for f in REPO_LIB]
         return "g++", units, SAN + ["-pthread"], ["sched", "conc_olc"]
@@ -618,7 +618,10 @@ def run_sched_workers(pid, exe, plans, outdir, res, extra_args=None, timeout=6 *
     faildir = os.path.join(FOUND, pid, "found")
     cmds = []
     for i, pl in enumerate(plans):
-        cmds.append([exe, "--prop", pid, "--cpu", str(i % NCPU), "--out", os.path.join(outdir, f"stats{i}.json"),
+        this_exe = exe
+        if pl and pl[0] == "--exe":      # per-worker harness binary (e.g. the NDEBUG build)
+            this_exe, pl = pl[1], pl[2:]
+        cmds.append([this_exe, "--prop", pid, "--cpu", str(i % NCPU), "--out", os.path.join(outdir, f"stats{i}.json"),
                      "--fail-dir", outdir] + pl + (extra_args or []))
     results = run_parallel(cmds, timeout=timeout)
     for c, rc, out, err in results:
@@ -631,10 +634,13 @@ def run_sched_workers(pid, exe, plans, outdir, res, extra_args=None, timeout=6 *
             line = [l for l in out.splitlines() if l.startswith("FAILURE ")][0]
             path = line.split()[1]
             msg = line.split("::", 1)[1].strip() if "::" in line else ""
-            if confirm_replay(exe, ["--prop", pid] + (extra_args or []), path):
+            if confirm_replay(c[0], ["--prop", pid] + (extra_args or []), path):
                 os.makedirs(faildir, exist_ok=True)
                 dst = os.path.join(faildir, os.path.basename(path))
                 shutil.copy(path, dst)
+                if c[0] != exe:
+                    with open(dst, "a") as f:
+                        f.write(f"# found with the harness build {os.path.basename(c[0])}\n")
                 res.violations.append((dst, msg))
             else:
                 res.inconclusive.append(f"failure did not reproduce in 3 fresh processes: {path}")
@@ -815,20 +821,38 @@ OLC_RULES = {
 def check_olc(pid, tier, seed):
     t0 = time.time()
     exe = build("olc")
+    exe_nd = build("olc_nd")   # NDEBUG variant (the repository's baseline configuration defines NDEBUG)
     res = Result()
     nrep = sched_replays(pid, exe, res)
     outdir = os.path.join(WORK, "run", pid)
     shutil.rmtree(outdir, ignore_errors=True)
     os.makedirs(outdir)
     if tier == "quick":
-        plans = [["--seed", str(seed * 1000 + i), "--programs", "26", "--dfs-p", "1" if i % 4 else "2",
-                  "--dfs-cap", "4000", "--pct", "40", "--rand", "40"] for i in range(NCPU)]
+        # half of the workers: minimal pairs (2 threads x 1 operation), every schedule with <= 2 preemptions;
+        # the others: richer programs, every schedule with <= 1 preemption, plus PCT / random walks
+        plans = []
+        for i in range(NCPU):
+            if i % 2 == 0:
+                plans.append(["--seed", str(seed * 1000 + i), "--shape", "pairs", "--programs", "14", "--dfs-p", "2",
+                              "--dfs-cap", "12000", "--pct", "20", "--rand", "20"])
+            else:
+                plans.append(["--seed", str(seed * 1000 + i), "--programs", "24", "--dfs-p", "1",
+                              "--dfs-cap", "4000", "--pct", "40", "--rand", "40"])
     else:
-        plans = [["--seed", str(seed * 1000 + i), "--programs", "1500", "--dfs-p", "2", "--dfs-cap", "30000",
-                  "--pct", "100", "--rand", "100", "--pct-depth", "4"] for i in range(NCPU)]
+        plans = []
+        for i in range(NCPU):
+            if i % 4 == 0:
+                plans.append(["--seed", str(seed * 1000 + i), "--shape", "pairs", "--programs", "1500", "--dfs-p", "3",
+                              "--dfs-cap", "60000", "--pct", "50", "--rand", "50"])
+            else:
+                plans.append(["--seed", str(seed * 1000 + i), "--programs", "1500", "--dfs-p", "2", "--dfs-cap", "30000",
+                              "--pct", "100", "--rand", "100", "--pct-depth", "4"])
+    # every fourth worker (offset 2, 3 alternating shapes) runs the NDEBUG build
+    plans = [(["--exe", exe_nd] + pl) if i % 8 in (2, 5) else pl for i, pl in enumerate(plans)]
     run_sched_workers(pid, exe, plans, outdir, res)
     counters, distinct, samples = merge_stats(sched_stats_files(outdir, len(plans)))
     cov = sched_coverage(pid, counters, distinct, samples, OLC_RULES[pid], res, nrep)
+    cov["harness_builds"] = "12 workers: assertions+ASan+UBSan+stats; 4 workers: NDEBUG+ASan+UBSan+stats"
     cov["preemption_bound"] = "1-2 (quick), 2 (thorough), capped per program (see programs_dfs_capped)"
     write_evidence(pid, tier, seed, "exploration", cov, time.time() - t0, len(res.violations),
                    ["sequential consistency at the granularity of one hooked access (lock word load/CAS/store, "
@@ -1144,7 +1168,7 @@ def main():
     a = ap.parse_args()
     os.makedirs(WORK, exist_ok=True)
     if a.build_all:
-        for t in ["seq", "enc_fast", "enc_san", "lock", "qsbr", "olc", "qsbr_fault", "qp_dbg", "qp_ndbg"] + [f"cfgx_{i}" for i in range(16)]:
+        for t in ["seq", "enc_fast", "enc_san", "lock", "qsbr", "olc", "olc_nd", "qsbr_fault", "qp_dbg", "qp_ndbg"] + [f"cfgx_{i}" for i in range(16)]:
             build(t)
         return 0
     seed = a.seed if a.seed is not None else int(os.environ.get("VERIF_SEED", "1") or 1)
@@ -1167,6 +1191,9 @@ def main():
         return 1 if bad else 0
     if a.replay:
         tgt, argf = REPLAY[a.prop]
+        with open(a.replay) as f:
+            if "harness build olc_nd" in f.read():
+                tgt = "olc_nd"
         exe = build(tgt)
         args = argf(a.prop)
         with open(a.replay) as f:
